@@ -175,6 +175,7 @@ def check(model, rep, tier):
             'out; the entry starts from the enclosing function\'s definitions',
             line=rvn.node.lineno)
   rns = model.cls(RF, '_NodeState')
+  rules_df.check_value_type(rep, 'LV-CLOSURE', rns)
   for op, want in (('__or__', 'union'), ('__add__', 'add')):
     m = rns.methods.get(op)
     if m is None:
@@ -274,3 +275,10 @@ def check(model, rep, tier):
             'the CFG must use node.iter as the loop header node', line=cvf.node.lineno)
 
   _c05.asdl_rule(model, rep, 'LV-ASDL', [LV, RF])
+
+  # ---------------------------------------------------------------- dependencies
+  rep.depends('C05', ['CFG-STMT', 'CFG-PAIR', 'CFG-TRY', 'CFG-SCOPE', 'CFG-KEYED', 'CFG-JUMP', 'CFG-LEAVES'],
+              'liveness is propagated backwards along the edges of this graph')
+  rep.depends('C08', ['ACT-TRAV', 'ACT-ORDER', 'FINALIZE'],
+              'the gen set of a statement is the read set of the activity '
+              'analysis: a read it does not visit is not live before it')
